@@ -606,7 +606,22 @@ func (s *Sim) endCanaries(round int) {
 		switch {
 		case mode == "hold":
 		case mode == "fail":
-			s.RunCLI("canary-fail", key)
+			if cr := s.Store.GetERS(e.Namespace, e.Status.Canary.ReplicaSet); cr != nil && s.inflight[CtrlERS] == nil && hash64(fmt.Sprint(s.Seed), "midsync", fmt.Sprint(round))%2 == 0 {
+				// the command lands between the reads and the status write of a sync of the canary replica set
+				s.StartReconcile(CtrlERS, types.NamespacedName{Namespace: cr.Namespace, Name: cr.Name})
+				for i := 0; i < 2+int(hash64(fmt.Sprint(s.Seed), "midsync-n")%4); i++ {
+					synctest.Wait()
+					p := s.canonicalPending()
+					if len(p) == 0 {
+						break
+					}
+					s.grant(p[0], "")
+				}
+				s.StartCLI("canary-fail", key)
+				s.Drain()
+			} else {
+				s.RunCLI("canary-fail", key)
+			}
 		case mode == "wait" && can.Duration != nil && round <= 3:
 			d := can.Duration.Duration
 			if can.NoRestartsDuration != nil && can.NoRestartsDuration.Duration > d {
